@@ -84,7 +84,10 @@ def _while_of(fi, view=None) -> ast.While:
     return ws[0]
 
 
-def check_thresh_perfect(rep, run: Run, D: Blocks, graph_status=None):
+CAND_STATUS = {}
+
+
+def check_thresh_perfect(rep, run: Run, D: Blocks, graph_status=None, cand_status=None):
     fi = run.fi
     elems = D.elem_choice()
     found_edge = found_perfect = 0
@@ -111,10 +114,10 @@ def check_thresh_perfect(rep, run: Run, D: Blocks, graph_status=None):
             cand_ok = (y == elems) or (y[0] == "choice" and set(y[1]) <= set(elems[1] if elems[0] == "choice" else [elems])) \
                 or (y in (elems[1] if elems[0] == "choice" else [elems])) \
                 or (y[0] == "opq" and y[1] == "carry")
-            if not cand_ok:
-                rep.refuted("BN-THRESH", fi, ev["node"],
-                            f"the threshold {sym.show(y)[:120]} is not one of the matrix's own entries: the optimal "
-                            f"value need not be among the candidates tested")
+            if not cand_ok and cand_status != "ok":
+                (rep.refuted if cand_status == "refuted-structural" else rep.unmodelled)(
+                    "BN-THRESH", fi, ev["node"],
+                    f"the threshold {sym.show(y)[:120]} is not recognised as one of the matrix's own entries")
             elif o == "<=":
                 rep.discharged("BN-THRESH", fi, ev["node"], "edge predicate compares every entry of the cost matrix "
                                                             "inclusively with a candidate drawn from the same matrix")
@@ -135,10 +138,9 @@ def check_thresh_perfect(rep, run: Run, D: Blocks, graph_status=None):
                 cand_ok = (y == elems) or (y[0] == "choice" and set(y[1]) <= set(elems[1] if elems[0] == "choice" else [elems])) \
                 or (y in (elems[1] if elems[0] == "choice" else [elems])) \
                     or (y[0] == "opq" and y[1] == "carry")
-                if not cand_ok:
-                    rep.refuted("BN-THRESH", fi, ev["node"],
-                                f"the threshold {sym.show(y)[:120]} is not one of the matrix's own entries: the optimal "
-                                f"value need not be among the candidates tested")
+                if not cand_ok and cand_status != "ok":
+                    rep.unmodelled("BN-THRESH", fi, ev["node"],
+                                   f"the threshold {sym.show(y)[:120]} is not recognised as one of the matrix's own entries")
                 elif o == "<=":
                     rep.discharged("BN-THRESH", fi, ev["node"], "edge predicate compares an entry of the cost matrix "
                                                                 "inclusively with a candidate drawn from the same matrix")
@@ -314,8 +316,13 @@ def check_bisect(rep, run: Run, D: Blocks):
             if b.src == D.uid and b.elem == D.elem_choice():
                 rep.discharged("BN-THRESH", fi, ev["node"], "candidate thresholds are exactly the entries of the cost "
                                                             "matrix (flatten/unique/sort)")
+            elif CAND_STATUS.get("v") == "ok":
+                rep.discharged("BN-THRESH", fi, ev["node"], "candidate thresholds cover the entries of the cost matrix (BN-CAND)")
+            elif CAND_STATUS.get("v") == "refuted":
+                pass
             else:
-                rep.refuted("BN-THRESH", fi, ev["node"], "candidate thresholds are not the entries of the cost matrix")
+                rep.unmodelled("BN-THRESH", fi, ev["node"], "candidate thresholds are not recognisably the entries of the cost "
+                                                            "matrix")
             break
 
 
@@ -493,11 +500,14 @@ def _check_lohi(rep, run, D, fi, w, view=None) -> bool:
             v = ev["value"]
             if isinstance(v, Bag) and v.elem == D.elem_choice():
                 rep.discharged("BN-THRESH", fi, ev["node"], "candidate thresholds are exactly the entries of the cost matrix")
+            elif CAND_STATUS.get("v") == "ok":
+                rep.discharged("BN-THRESH", fi, ev["node"], "candidate thresholds cover the entries of the cost matrix (BN-CAND)")
+            elif CAND_STATUS.get("v") == "refuted":
+                pass
             elif isinstance(v, (Bag, Arr)):
                 from ..core.values import generic_elem
-                rep.refuted("BN-THRESH", fi, ev["node"], f"candidate thresholds are drawn from {sym.show(generic_elem(v))[:120]}, "
-                                                         f"not from all entries of the cost matrix: the optimal value (for "
-                                                         f"instance a cost of matching to the diagonal) need not be among them")
+                rep.unmodelled("BN-THRESH", fi, ev["node"], f"candidate thresholds are drawn from {sym.show(generic_elem(v))[:120]}: "
+                                                            f"not recognisably all entries of the cost matrix")
             else:
                 rep.unmodelled("BN-THRESH", fi, ev["node"], f"candidate thresholds not modelled: {v!r}"[:160])
             break
@@ -567,7 +577,9 @@ def run(project: Project, rep, tier: str):
     check_tiling(rep, "BN-TILE", run, D, fi)
     check_filter(rep, "BN-FILTER", project, BN)
     graph_status = check_graph(rep, "BN-GRAPH", run, D)
-    check_thresh_perfect(rep, run, D, graph_status)
+    from .distances import check_candidates
+    CAND_STATUS["v"] = check_candidates(rep, "BN-CAND", run, D)
+    check_thresh_perfect(rep, run, D, graph_status, CAND_STATUS["v"])
     # BN-SEARCH follows the search on fixed candidate lists with a feasibility oracle (whatever its shape); the site rule
     # BN-BISECT reads the shapes it knows. A shape BN-BISECT does not know is not an error when BN-SEARCH decided the search.
     from ..core.report import Report
@@ -596,6 +608,7 @@ def run(project: Project, rep, tier: str):
     rep.floor("BN-COST", 5)
     rep.floor("BN-TILE", 7)
     rep.floor("BN-GRAPH", 1)
+    rep.floor("BN-CAND", 1)
     rep.floor("BN-FILTER", 2)
     rep.floor("BN-THRESH", 2)
     rep.floor("BN-PERFECT", 1)
